@@ -108,19 +108,13 @@ Definition step_spec (c : cfgT) (w : wobs) (s : step) : bool :=
     end
   | CMount n, ROk, Some los =>
     (* the stack layercake has just mounted is reported mounted, never as an error *)
-    forallb (fun x => existsb (fun lo => beq (lo_name lo) (l_name x)
-                                         && ((lo_state lo =? st_mounted) || (lo_state lo =? st_mounted_busy))) los)
+    forallb (fun x => existsb (fun lo => beq (lo_name lo) (l_name x) && negb (lo_state lo =? st_error)) los)
             (chain c f n)
   | _, _, _ => true
   end.
 
 Definition spec (c : case) : bool := along (step_spec (c_cfg c)) (w0 c) (c_steps c).
 Definition wf := LC.wf.
-(* known finding 1: the base path (or an import source) lies on a mount whose root is not "/"
-   (bind mount, sub-volume): GetMountSources cannot reconstruct the source path *)
-Definition kf (c : case) : N :=
-  if existsb (fun k => at_or_under (k_mp k) (c_base (c_cfg c)) && negb (beq (k_root k) root)
-                       && negb (beq (k_mp k) root)) (ks_tab (c_ks0 c))
-  then 1 else 0.
+Definition kf (c : case) : N := 0.
 Definition verdict (c : case) : N := mkverdict (wf c) (LC.corr c) (spec c) (kf c).
 End C08.
